@@ -161,6 +161,34 @@ def run_seeded(prop, src_root="/repo"):
             "neutral_undecided": sum(1 for r in neutral if r.get("exit") == 2), "details": res}
 
 
+def run_rename_probe(prop, src_root="/repo"):
+    """Mechanical invariance probe: every local variable of every function of the package is renamed (suffix), the check of
+    `prop` must give the verdict it gives on the tree as written.  The renamed tree lives under tempfile.mkdtemp() only."""
+    import ast as _ast
+    import importlib.util as _iu
+    import shutil
+    import subprocess
+    import tempfile
+    spec = _iu.spec_from_file_location("alpha_rename_tool", os.path.join(HERE_VERIF, "tools", "alpha_rename.py"))
+    src = open(os.path.join(HERE_VERIF, "tools", "alpha_rename.py")).read().rsplit("\nmain()", 1)[0]
+    ns = {"__name__": "alpha_rename_tool", "__file__": os.path.join(HERE_VERIF, "tools", "alpha_rename.py")}
+    exec(compile(src, "alpha_rename.py", "exec"), ns)
+    scratch = tempfile.mkdtemp(prefix="renprobe_")
+    try:
+        for d in ("ak", "bin", "tests"):
+            if os.path.isdir(os.path.join(src_root, d)):
+                shutil.copytree(os.path.join(src_root, d), os.path.join(scratch, d))
+        n = 0
+        for root, _d, fs in os.walk(os.path.join(scratch, "ak")):
+            for fn in fs:
+                if fn.endswith(".py"):
+                    n += ns["rename_file"](os.path.join(root, fn), "_q")
+        r = subprocess.run([os.path.join(HERE_VERIF, "check"), prop, "--tier", "quick", "--no-write", "--repo", scratch], capture_output=True, text=True, cwd=HERE_VERIF)
+        return {"local_names_renamed": n, "exit_on_renamed_tree": r.returncode, "same_verdict_as_written": r.returncode == 0}
+    finally:
+        shutil.rmtree(scratch, ignore_errors=True)
+
+
 def main():
     props = [a.upper() for a in sys.argv[1:] if not a.startswith("-")] or PROPS
     src = os.environ.get("VERIF_REPO", "/repo")
